@@ -334,7 +334,7 @@ def c_obs_roll(got):
 
 
 def c_roll_case(case, got):
-    return "(%s, %s, %s)" % (c_copts(case), c_narr(case), c_obs_roll(got))
+    return "((%s, %s, %s) : copts * narr * obs_roll)" % (c_copts(case), c_narr(case), c_obs_roll(got))
 
 
 # ----------------------------------------------------------------------------
@@ -532,6 +532,15 @@ def shrink_roll(case, pred):
     return dict(case, rows=rows)
 
 
+
+def coq_failing_or_empty(ctx, name, terms, checker, shard):
+    """ctx.coq_failing, except that an empty case list (every case already failed the direct oracle)
+    is not handed to Coq (an untyped empty list literal does not elaborate)."""
+    if not terms:
+        return None
+    return ctx.coq_failing(name, "From PV Require Import Model.C13.", "", terms, checker, shard=shard)
+
+
 def run_roll_stream(ctx, cases, name, with_coq=True):
     terms, kept = [], []
     k1_reported = False
@@ -564,7 +573,10 @@ def run_roll_stream(ctx, cases, name, with_coq=True):
         kept.append((case, got))
     if not with_coq:
         return
-    failing = ctx.coq_failing(name, "From PV Require Import Model.C13.", "", terms, "check_pianoroll", shard=250)
+    failing = coq_failing_or_empty(ctx, name, terms, "check_pianoroll", 250)
+    if failing is None:
+        ctx.obligation("correspondence: compute_pianoroll [%s]: no case left to compare (all failed the direct oracle)" % name, False, "")
+        return
     ctx.obligation("correspondence: Model.C13.compute_pianoroll = implementation (shape, dense array cell by cell, index rows) on %d cases [%s]"
                    % (len(terms), name), not failing, failing[:5])
     for i in failing[:5]:
@@ -737,11 +749,14 @@ def run_pc_stream(ctx, n):
             ob = "(Some (%s, %s, %s))" % (cz(got["cols"]), clist([ctuple([cz(r), cz(a), cz(b), cq(fr(q))]) for r, a, b, q in got["runs"]]), c_idx(got["idx"]))
         else:
             ob = "None"
-        terms.append("(%s, %s, %s)" % (c_pcopts(case), c_narr(case), ob))
+        terms.append("((%s, %s, %s) : pcopts * narr * obs_pc)" % (c_pcopts(case), c_narr(case), ob))
         kept.append((case, got))
     if kept:
         ctx.sample({"case": kept[0][0], "implementation": kept[0][1]}, limit=4)
-    failing = ctx.coq_failing("pc", "From PV Require Import Model.C13.", "", terms, "check_pc", shard=100)
+    failing = coq_failing_or_empty(ctx, "pc", terms, "check_pc", 100)
+    if failing is None:
+        ctx.obligation("correspondence: compute_pitch_class_pianoroll: no case left to compare (all failed the direct oracle)", False, "")
+        return
     ctx.obligation("correspondence: Model.C13 pitch-class fold/normalisation = compute_pitch_class_pianoroll on %d cases" % len(terms), not failing, failing[:5])
     for i in failing[:5]:
         ctx.violation("model and implementation disagree on compute_pitch_class_pianoroll", {"case": kept[i][0], "got": kept[i][1]})
@@ -855,7 +870,7 @@ def c_decode_case(case, got):
         ob = "(Some %s)" % clist([ctuple([cz(p), cq(fr(a)), cq(fr(d)), cz(v)]) for p, a, d, v in got["notes"]])
     else:
         ob = "None"
-    return "(%s, %s, %s, %s, %s)" % (cz(case["rows"]), cz(case["cols"]), cells, cz(case["time_div"]), ob)
+    return "((%s, %s, %s, %s, %s) : Z * Z * list cell * Z * option (list (Z * Q * Q * Z)))" % (cz(case["rows"]), cz(case["cols"]), cells, cz(case["time_div"]), ob)
 
 
 def gen_roundtrip_case(rng):
@@ -926,7 +941,10 @@ def run_decode_stream(ctx, n_random, n_round):
         kept.append((case, got))
     if kept:
         ctx.sample({"case": kept[0][0], "implementation": kept[0][1]}, limit=5)
-    failing = ctx.coq_failing("decode", "From PV Require Import Model.C13.", "", terms, "check_decode", shard=250)
+    failing = coq_failing_or_empty(ctx, "decode", terms, "check_decode", 250)
+    if failing is None:
+        ctx.obligation("correspondence: pianoroll_to_notearray: no case left to compare (all failed the direct oracle)", False, "")
+        failing = []
     ctx.obligation("correspondence: Model.C13.pianoroll_to_notearray = implementation on %d random integer rolls (128 x n and 88 x n; dense, csc, csr)"
                    % len(terms), not failing, failing[:5])
     for i in failing[:5]:
@@ -968,7 +986,7 @@ def run(ctx):
                        "pitches and velocities are Python/numpy integers (i4 overflow out of scope)"]
     ctx.matchers[K1] = lambda ro: (ro.get("finding") == "onset_only_idx_offset" and ro["case"]["opts"]["onset_only"]
                                    and ro["case"]["opts"]["return_idxs"] and (judge_roll(ro["case"]) or "").startswith("K1:"))
-    ok, why = ctx.coq_props(expect_min=12)
+    ok, why = ctx.coq_props(expect_min=24)
     quick = ctx.tier == "quick"
     rng = ctx.rng
     # corpus / fixed arrays first: the full option grid
